@@ -4,7 +4,7 @@ import ast
 from ..core.model import AnchorError, ClassInfo, FuncInfo
 from ..core.cfg import walk_shallow, cfg_of
 from ..core.facts import U, atoms_of
-from ..engine import fn_name, kwarg, local_defs, returns_of, stmts_in, dict_items, const_str
+from ..engine import argn, fn_name, kwarg, local_defs, returns_of, stmts_in, dict_items, const_str
 from .common import eval3
 
 EXPLANATION = (
@@ -145,12 +145,12 @@ def keys_read(ctx, f: FuncInfo, _seen=None):
             put(k, "soft" if soft else "hard")
         if isinstance(x, ast.Call) and isinstance(x.func, ast.Attribute) and x.func.attr == "get" \
                 and isinstance(x.func.value, ast.Name) and x.func.value.id == sv and x.args:
-            put(_key(ctx, f, x.args[0]), "soft")
+            put(_key(ctx, f, argn(x, 0)), "soft")
         if isinstance(x, ast.Compare) and len(x.ops) == 1 and isinstance(x.ops[0], (ast.In, ast.NotIn)) \
                 and isinstance(x.comparators[0], ast.Name) and x.comparators[0].id == sv:
             put(_key(ctx, f, x.left), "soft")
         if isinstance(x, ast.Call) and isinstance(x.func, ast.Attribute) and x.func.attr in ("_restore_from_state",) \
-                and x.args and isinstance(x.args[0], ast.Name) and x.args[0].id == sv:
+                and x.args and isinstance(argn(x, 0), ast.Name) and argn(x, 0).id == sv:
             if _super_call(x, "_restore_from_state"):
                 nxt = P.lookup_method(f.defining_cls, "_restore_from_state", after=f.defining_cls)
                 tg = [nxt] if nxt else []
@@ -460,8 +460,8 @@ def ctor_fails_on_none(ctx, cls, p):
         return None
 
     def ev(e):
-        if isinstance(e, ast.Call) and isinstance(e.func, ast.Name) and e.func.id == "isinstance" and U(e.args[0]) == p:
-            return "NoneType" in U(e.args[1]) or U(e.args[1]) == "object"
+        if isinstance(e, ast.Call) and isinstance(e.func, ast.Name) and e.func.id == "isinstance" and U(argn(e, 0)) == p:
+            return "NoneType" in U(argn(e, 1)) or U(argn(e, 1)) == "object"
         if isinstance(e, ast.Compare) and len(e.ops) == 1 and U(e.left) == p and U(e.comparators[0]) == "None":
             return isinstance(e.ops[0], ast.Is) if isinstance(e.ops[0], (ast.Is, ast.IsNot)) else None
         if isinstance(e, ast.Name) and e.id == p:
@@ -601,7 +601,7 @@ def s5(ctx, rep):
     rep.put(not bad, "S5", "attr_scan", "no generator / open file stored in an attribute reachable from the Tuner", None, None,
             f"{n} attribute stores in {len(fam)} classes scanned")
     f = P.method("Tuner", "save")
-    ok = any(isinstance(x, ast.Call) and U(x.func) == "dill.dump" and x.args and U(x.args[0]) == "self" for x in walk_shallow(f.node))
+    ok = any(isinstance(x, ast.Call) and U(x.func) == "dill.dump" and x.args and U(argn(x, 0)) == "self" for x in walk_shallow(f.node))
     g = P.method("Tuner", "load")
     ok = ok and any(isinstance(x, ast.Call) and U(x.func) == "dill.load" for x in walk_shallow(g.node))
     rep.put(ok, "S5", "agreement", "Tuner.save / Tuner.load use dill.dump(self) / dill.load", f, None, "")
@@ -671,8 +671,8 @@ def _param_sides(ctx, c):
             (rk.add(t) if t not in (None, "{}") else unknown.append(U(x.slice)))
         if isinstance(x, ast.Call) and isinstance(x.func, ast.Attribute) and x.func.attr == "get" and sp and \
                 isinstance(x.func.value, ast.Name) and x.func.value.id == sp[0] and x.args:
-            t = _templates(ctx, s, x.args[0])
-            (rk.add(t) if t not in (None, "{}") else unknown.append(U(x.args[0])))
+            t = _templates(ctx, s, argn(x, 0))
+            (rk.add(t) if t not in (None, "{}") else unknown.append(U(argn(x, 0))))
 
     def deleg(fn, meth):
         out = set()
@@ -735,7 +735,7 @@ def s8(ctx, rep):
         for x in walk_shallow(r.node):
             if isinstance(x, ast.Call) and fn_name(x) == "set_state" and isinstance(x.func.value, ast.Attribute) and "random_state" in x.func.value.attr:
                 n += 1
-                a = x.args[0] if x.args else None
+                a = argn(x, 0) if x.args else None
                 ok = isinstance(a, ast.Subscript) and isinstance(a.value, ast.Name) and a.value.id in r.params
                 if isinstance(a, ast.Name):
                     ds = [d for d in local_defs(r, a.id) if not isinstance(d, tuple)]
